@@ -37,18 +37,98 @@ def matches_x(text: str) -> bool:
 @invariant(lambda self: not (self.a is not None) or matches_x(self.b), "A implies b matches.")
 @invariant(lambda self: self.a is None or len(self.c) >= 3, "A implies c is long.")
 @invariant(lambda self: len(self.d) <= 5, "D is short.")
-@invariant(lambda self: len(self.d) >= 4, "D is not too short.")
+@invariant(lambda self: len(self.e) >= 4, "E is not too short.")
 @serialization(with_model_type=True)
 class Something(DBC):
     b: str
     c: str
     d: bytearray
+    e: bytearray
     a: Optional[int]
 
-    def __init__(self, b: str, c: str, d: bytearray, a: Optional[int] = None) -> None:
+    def __init__(
+        self, b: str, c: str, d: bytearray, e: bytearray, a: Optional[int] = None
+    ) -> None:
         self.a = a
         self.b = b
         self.c = c
+        self.d = d
+        self.e = e
+
+
+__version__ = "dummy"
+__xml_namespace__ = "https://dummy.com"
+''',
+    ),
+    (
+        "targeted/negative-maximum",
+        '''
+@invariant(lambda self: len(self.xs) < 0, "Impossible.")
+@invariant(lambda self: 0 > len(self.text), "Impossible as well.")
+class Something(DBC):
+    xs: List[int]
+    text: str
+
+    def __init__(self, xs: List[int], text: str) -> None:
+        self.xs = xs
+        self.text = text
+
+
+__version__ = "dummy"
+__xml_namespace__ = "https://dummy.com"
+''',
+    ),
+    (
+        "targeted/astral-patterns",
+        '''
+@verification
+def matches_a(text: str) -> bool:
+    """Check the text."""
+    pattern = f"^[a-z\\U0001f600]+$"
+    return match(pattern, text) is not None
+
+
+@verification
+def matches_b(text: str) -> bool:
+    """Check the text."""
+    pattern = f"^(\\U0001f600|[a-z]|\\u00e9)*$"
+    return match(pattern, text) is not None
+
+
+@verification
+def matches_c(text: str) -> bool:
+    """Check the text."""
+    pattern = f"^[\\U00010000-\\U0010ffff]{{1,3}}$"
+    return match(pattern, text) is not None
+
+
+@verification
+def matches_d(text: str) -> bool:
+    """Check the text."""
+    pattern = f"^[a-z]*\\U0001f642?\\xe9{{0,2}}$"
+    return match(pattern, text) is not None
+
+
+@invariant(lambda self: matches_c(self), "Only astral characters.")
+class Astral(str, DBC):
+    pass
+
+
+@invariant(lambda self: matches_a(self.a), "A matches.")
+@invariant(lambda self: matches_b(self.b) and matches_a(self.b), "B matches both.")
+@invariant(lambda self: not (self.d is not None) or matches_d(self.d), "D matches.")
+class Something(DBC):
+    a: str
+    b: str
+    c: Astral
+    cs: List[Astral]
+    d: Optional[str]
+
+    def __init__(self, a: str, b: str, c: Astral, cs: List[Astral], d: Optional[str] = None) -> None:
+        self.a = a
+        self.b = b
+        self.c = c
+        self.cs = cs
         self.d = d
 
 
@@ -168,17 +248,17 @@ def check_model(chk: harness.Check, name: str, text: str, rng, n_instances: int,
 
 
 def model_list(chk: harness.Check, n_mmg: int) -> List[Tuple[str, Optional[str], bool]]:
-    """(name, text or None for MMG index, with_instances)."""
+    """(name, text or None for MMG index, with_instances); generated models first."""
     result: List[Tuple[str, Optional[str], bool]] = []
     for name, text in TARGETED:
         result.append((name, text, True))
+    for i in range(n_mmg):
+        result.append((f"mmg/{chk.seed}/{i}", None, True))
     for name, text in corpus.models(include_v3=False):
         deep = name.startswith("common_meta_models/") or name.startswith("main/jsonschema/")
         if chk.tier == "thorough":
             deep = True
         result.append((f"corpus/{name}", text, deep))
-    for i in range(n_mmg):
-        result.append((f"mmg/{chk.seed}/{i}", None, True))
     return result
 
 
@@ -190,9 +270,11 @@ def worker(args) -> Tuple[Dict[str, Any], List[Tuple[str, str, bool]]]:
     models = model_list(chk, n_mmg)
     mine = [m for idx, m in enumerate(models) if idx % n_shards == shard]
     for idx, (name, text, deep) in enumerate(mine):
-        if time.time() > deadline:
-            chk.count("models_skipped_for_budget", len(mine) - idx)
-            break
+        # the generated models may use 80 % of the budget, the rest is kept for the corpus
+        limit = chk.t0 + 0.8 * budget if text is None else deadline
+        if time.time() > limit:
+            chk.count("models_skipped_for_budget")
+            continue
         if text is None:
             index = int(name.rsplit("/", 1)[1])
             m = jschema.generate_model(chk.rng("model", index), index)
@@ -200,7 +282,7 @@ def worker(args) -> Tuple[Dict[str, Any], List[Tuple[str, str, bool]]]:
             for k, v in m.features.items():
                 chk.hist("mmg_features", k, v)
         try:
-            check_model(chk, name, text, chk.rng("inst", name), n_instances, deadline, deep)
+            check_model(chk, name, text, chk.rng("inst", name), n_instances, limit, deep)
         except RecursionError:
             chk.count("models_recursion_skipped")
     if shard == 0 and chk.tier == "thorough" and time.time() < deadline:
@@ -262,6 +344,7 @@ def main(argv) -> int:
     chk.require_min("documents_with_constrained_values", chk.pick(200, 4000))
     chk.require_min("values_exactly_at_a_bound", chk.pick(100, 2000))
     chk.require_min("pattern_constrained_values", chk.pick(60, 1000))
+    chk.require_min("pattern_constrained_values_with_astral_characters", chk.pick(20, 100))
     chk.assume("an instance is 'satisfying' when Python evaluates every invariant lambda of every reachable object and constrained value to True (vf.pyexec)")
     chk.assume("minLength/maxLength count characters as json-schema defines them (code points), only `pattern` works on UTF-16 code units")
     chk.assume("models on which the jsonschema target or the Python generator reports errors or crashes are counted and skipped (C01/C02)")
